@@ -346,6 +346,7 @@ class C15(CheckBase):
 
     # -- execution ---------------------------------------------------------------
     def run(self, case: dict) -> dict:
+        self.quiesce()
         log = EventLog()
         self._counts = None
         if case.get("faults") and not case.get("_dry"):
